@@ -568,23 +568,39 @@ def run_account_case(ctx, nodes, roots, blk_hash, key, state_idx, expect, fkey, 
     libs = G.lib_build(nodes)
     kb = key.to_bytes(32, 'big')
     got = 'rej'
+    got_descr = 'rej'
     if all(libs[r] is not None for r in roots) and libs[state_idx] is not None:
+        boc = blk = None
         try:
             boc = multi_root_boc([libs[r] for r in roots])
             blk = BlockIdExt(0, -9223372036854775808, 1, blk_hash, bytes(32))
-            d = check_account_proof(boc, blk, Address((0, kb)), libs[state_idx], True)
-            check_account_proof(boc, blk, Address((0, kb)), libs[state_idx])
-            got = 'acc'
-            if check_descr is not None and d.cell[0].get_hash(0) != check_descr:
-                ctx.fail('complete:account-descr', 'returned account descriptor does not carry the account hash', {'key': fkey}, d.cell[0].get_hash(0), check_descr)
         except Exception:
-            got = 'rej'
+            pass
+        if boc is not None:
+            # the two calling modes are judged SEPARATELY: each must reject on its own (return_account_descr=True must
+            # not skip any comparison the plain call makes)
+            try:
+                check_account_proof(boc, blk, Address((0, kb)), libs[state_idx])
+                got = 'acc'
+            except Exception:
+                got = 'rej'
+            try:
+                d = check_account_proof(boc, blk, Address((0, kb)), libs[state_idx], True)
+                got_descr = 'acc'
+                if check_descr is not None and d.cell[0].get_hash(0) != check_descr:
+                    ctx.fail('complete:account-descr', 'returned account descriptor does not carry the account hash', {'key': fkey}, d.cell[0].get_hash(0), check_descr)
+            except Exception:
+                got_descr = 'rej'
     ctx.case(('acct', fkey, tuple(nodes), tuple(roots), blk_hash, key, state_idx), sample={'op': 'check_account_proof', 'cells': len(nodes), 'key': fkey, 'verdict': got})
     ctx.count(f'{fkey}:{got}')
     inp = {'op': 'acct', 'dag': jnodes(nodes), 'roots': list(roots), 'blk_hash': blk_hash.hex(), 'addr': kb.hex(), 'state_idx': state_idx,
            'expect': expect, 'key': fkey, 'what': what}
     if expect is not None and got != expect:
         ctx.fail(fkey, f'check_account_proof: {what}', inp, got, expect)
+    if expect is not None and got_descr != expect:
+        ctx.fail(fkey + '/descr', f'check_account_proof(..., return_account_descr=True): {what}', dict(inp, return_account_descr=True), got_descr, expect)
+    elif got_descr != got:
+        ctx.corr_broken(f'check_account_proof verdict depends on return_account_descr ({got} vs {got_descr}) on {fkey}')
     ctx.expect_model(f'chkacct {dag_str(nodes)} {".".join(map(str, roots))} {hx(blk_hash)} {kb.hex()} {state_idx}', got, fkey)
     return got
 
